@@ -11,6 +11,8 @@ func init() {
 	Register("c04", runC04)
 }
 
+var c04Odd = []string{"unknown", "_hidden", "fe80::1%eth0", "fe80::2%eth0", "fe80::1%eth1", "10.1.0.10:5555", "10.1.0.11:5555", "[2001:db8::7]:4711", "client-a.example.test", "client-b.example.test"}
+
 var c04Addrs = []string{"10.1.0.10", "192.168.7.7", "172.16.200.3", "2001:db8::7", "fe80::1", "203.0.113.9", "10.1.0.11", "::1", "127.0.0.1"}
 
 // nearAddr is a different address whose text is close to a: the other is a proper prefix or
@@ -71,7 +73,20 @@ func runC04(c *Ctx) {
 	addrA := c04Addrs[ia]
 	same := c.T.Bool(1, 2)
 	addrB := addrA
-	if !same {
+	// what a proxy puts into X-Forwarded-For need not be an address literal: zone-scoped
+	// link-local addresses, address:port, obfuscated identifiers (RFC 7239) and names occur;
+	// different strings are different clients
+	oddA, oddB := false, false
+	if c.T.Bool(1, 5) {
+		io := c.T.Choose(len(c04Odd))
+		addrA, addrB, oddA, oddB = c04Odd[io], c04Odd[io], true, true
+		if !same {
+			addrB = c04Odd[(io+1+c.T.Choose(len(c04Odd)-1))%len(c04Odd)]
+			if c.T.Bool(1, 4) {
+				addrB, oddB = c04Addrs[ia], false
+			}
+		}
+	} else if !same {
 		// never a rejection loop on the tape: a replayed tape of zeros must terminate
 		addrB = c04Addrs[(ia+1+c.T.Choose(len(c04Addrs)-1))%len(c04Addrs)]
 		if c.T.Bool(1, 2) {
@@ -83,7 +98,7 @@ func runC04(c *Ctx) {
 	}
 	// how B's address reaches the gateway: TCP peer, or first X-Forwarded-For element
 	peerIP := addrB
-	viaXFF := c.T.Bool(1, 2)
+	viaXFF := c.T.Bool(1, 2) || oddB
 	if viaXFF {
 		peerIP = []string{"10.200.0.1", "10.200.0.2", addrA}[c.T.Choose(3)] // the proxy; may even be A itself
 		chain := []string{addrB}
@@ -110,9 +125,13 @@ func runC04(c *Ctx) {
 	cookie := MintCookie(c, tw.Cfg.PAASigningKey, p.User, p.AllowedHost, addrA, p.AccessToken, 5*60*1e9)
 	issued := "minted"
 	if c.T.Bool(1, 2) {
-		b := c.W.NewBrowser("b1", peerOf(addrA, 52000))
+		bfrom := peerOf(addrA, 52000)
+		if oddA {
+			bfrom = "10.200.0.7:52000"
+		}
+		b := c.W.NewBrowser("b1", bfrom)
 		issued = "real-download(peer)"
-		if c.T.Bool(1, 2) {
+		if c.T.Bool(1, 2) || oddA {
 			b.From = "10.200.0.7:52000"
 			b.XFF = addrA + []string{"", ", 10.200.0.9", " , 198.51.100.2, 10.200.0.9"}[c.T.Choose(3)]
 			issued = "real-download(xff=" + b.XFF + ")"
@@ -149,6 +168,13 @@ func runC04(c *Ctx) {
 	}
 	p.HostScript = [][]byte{[]byte("host-bytes")}
 	p.Pkts = []CPkt{PHandshake(tw.MC.ServerCaps, 1, 0), PTunnelCreate(cookie, true), PTunnelAuth("n"), cc, PData(c.T.Bytes(20, 4))}
+	if p.Transport == "legacy" && c.T.Bool(1, 3) {
+		// the presenting client makes another request with the tunnel's connection id while
+		// the tunnel is being authorised (a retried RDG_IN_DATA): the address the token is
+		// compared with stays the one recorded in the token
+		p.DupIn, p.DupAfter = 2, 1+c.T.Choose(3)
+		note += fmt.Sprintf(" retried-IN-after=%d", p.DupAfter)
+	}
 	tw.Tuns = StartTunnels(c, tw.Plans)
 	RunTunnels(c, tw.Tuns, 2000)
 	t := tw.Tuns[0]
